@@ -200,7 +200,7 @@ fn main() {
     let layout = gen_layout(&mut r, ndocs, nseg, &deleted);
     let world = build(&docs, &layout);
     let reader = world.index.reader().expect("reader");
-    let with_top_hits = r.chance(1, 4);
+    let with_top_hits = r.chance(1, 3);
     let mut st = AggStats::default();
     // with a top_hits (which ranks by score) keep to queries whose scores cannot depend on the f32
     // summation order of an execution strategy
@@ -208,10 +208,23 @@ fn main() {
     while with_top_hits && query.scored_terms > 2 {
       query = gen_query(&mut r);
     }
+    let mut aggs = if r.chance(1, 12) { json!({}) } else { gen_aggs(&mut r, 2, with_top_hits, &mut st) };
+    if with_top_hits && !st.top_hits {
+      // the tree came out without one: add a top-level top_hits, ordered by score, by fields
+      // only, or by both (its hits report their scores whatever it is ordered by)
+      let sort = match r.below(4) {
+        0 => json!([]),
+        1 => json!([{"field": "n", "order": "desc"}]),
+        2 => json!([{"field": "tag", "order": "asc"}, {"field": "n", "order": "asc"}]),
+        _ => json!([{"field": "_score"}, {"field": "tag", "order": "asc"}]),
+      };
+      aggs["th"] = json!({"type": "top_hits", "size": 1 + r.below(3), "sort": sort});
+      st.top_hits = true;
+    }
     let spec = WorldSpec {
       query,
       filter: if r.chance(1, 2) { Some(gen_filter(&mut r, 1)) } else { None },
-      aggs: if r.chance(1, 12) { json!({}) } else { gen_aggs(&mut r, 2, with_top_hits, &mut st) },
+      aggs,
       suggest: if r.chance(1, 2) {
         json!({"sg": {"type":"completion","field":"body","prefix": *r.pick(&["se","al","ru","in","g"][..]), "size": 3}})
       } else {
@@ -297,6 +310,16 @@ fn main() {
     let nrand = if thorough { 8 } else { 5 };
     for _ in 0..nrand {
       vars.push(rand_var(&mut r));
+    }
+    if st.top_hits {
+      // a field-sorted request without and with explain: whether the query is scored must not
+      // show in the aggregation part
+      for explain in [false, true] {
+        let mut v = base_var.clone();
+        v.sort = all_sorts[3].clone();
+        v.explain = explain;
+        vars.push(v);
+      }
     }
     // small pages on the score fast path: where WAND / block-max pruning would bite if it were
     // not disabled by the attached collector
